@@ -5,6 +5,8 @@
    saves, reads and socks_endpoint() [cfg_oracle]: after an event every option without a pending
    local change reads as the NEW value parsed by its type, list options as tracked lists whether
    the event carried zero, one or many values, and an in-place edit followed by save() emits it.
+   A port list that names no listener at attach time (unset or "auto") may read as reported or
+   as the default lines [Spec/CfgOracle.v worlds].
    Also: the input classes of the open findings of C11.
    Independent of Model/ and Gen/. *)
 From Coq Require Import String.
@@ -16,52 +18,12 @@ Open Scope N_scope.
 Definition c11_scope (i : cfg_input) : bool := in_scope i.
 
 Definition oracle (i : cfg_input) (boot_ok : bool) (boot : list rres) (tr : list obs) : bool :=
-  boot_oracle i boot_ok boot && cfg_oracle i tr.
+  full_oracle i boot_ok boot tr.
 
 (* ------------------------------------------------------------------ finding classes *)
-Definition port_options (i : cfg_input) : list bytes :=
-  concat (map (fun o : bytes * kind => match snd o with KPorts => [fst o] | _ => [] end) (options (i_table i))).
-
-(* F1 portlist_bootstrap_irregular: a port list (announced by a <X>PortLines row) whose value in
-   Tor at attach time is anything but exactly one line other than "auto": unset, "auto", or many *)
-Definition portlist_bootstrap_irregular (i : cfg_input) : bool :=
-  existsb (fun cn => match store_get (i_store i) cn with
-                     | [v] => beqb v auto_word || is_nil v
-                     | _ => true
-                     end) (port_options i).
-
-(* F2 portlist_conf_changed: a CONF_CHANGED event names a port list *)
-Definition event_keys (o : op) : list bytes :=
-  match o with OpEvent items => map fst items | _ => [] end.
-Definition portlist_conf_changed (i : cfg_input) : bool :=
-  existsb (fun k => mem_ci k (port_options i)) (concat (map event_keys (i_ops i))).
-
-(* F3 conf_changed_multi_then_keyword: in one event, a keyword-only line directly follows a
-   Key=Value line whose key has already carried a value earlier in the same event *)
-Fixpoint count_key (k : bytes) (l : list bytes) : nat :=
-  match l with [] => O | x :: t => (if beqb x k then 1 else 0) + count_key k t end.
-Fixpoint multi_then_keyword (seen : list bytes) (prev : option bytes) (items : list (bytes * option bytes)) : bool :=
-  match items with
-  | [] => false
-  | (k, Some _) :: rest => multi_then_keyword (k :: seen) (Some k) rest
-  | (_, None) :: rest =>
-      (match prev with Some pk => Nat.ltb 1 (count_key pk seen) | None => false end)
-      || multi_then_keyword seen None rest
-  end.
-Definition conf_changed_multi_then_keyword (i : cfg_input) : bool :=
-  existsb (fun o => match o with OpEvent items => multi_then_keyword [] None items | _ => false end) (i_ops i).
-
-(* F4 comma_default_unsplit: config/defaults has a line with a comma for a comma-list option *)
-Definition comma_default_unsplit (i : cfg_input) : bool :=
-  existsb (fun o : bytes * kind =>
-             match snd o with
-             | KComma => existsb (memb COMMA) (default_lines (i_defaults i) (fst o))
-             | _ => false
-             end) (options (i_table i)).
-
 (* F5 = C10-F3 (edit_while_detached), whose third clause needs an event: an in-place edit of a
-   list option for which Tor announced a new value while a local change was pending *)
+   list option for which Tor announced a new value while a local change was pending.
+   (F1-F4 of this property are repaired in the source; their witnesses are kept in the corpus and
+   as `_now_accepted` theorems.) *)
 
-Definition c11_known (i : cfg_input) : bool :=
-  portlist_bootstrap_irregular i || portlist_conf_changed i || conf_changed_multi_then_keyword i
-  || comma_default_unsplit i || c10_known i.
+Definition c11_known (i : cfg_input) : bool := c10_known i.
